@@ -338,7 +338,20 @@ pub fn run_c11(a: &Args) {
                 let in_class = match align { None => encoded.len() >= n, Some(al) => encoded.len() % al == 0 || encoded.len() >= n };
                 st.fail_class(if in_class { "c11-no-terminator-at-full-width" } else { "" }, format!("[C11] {} text field does not end in NUL for a {}-byte text", kind.name, encoded.len()), id.clone());
             }
-            // decoding stops at the first NUL
+            // decoding stops at the first NUL: the same frame with every byte after the first NUL of the field overwritten
+            // by non-NUL bytes (what a peer reusing a buffer sends) must decode to the same text
+            if text.is_ascii() && !text.is_empty() && !text.contains('^') && !text.contains('Z') {
+                let fend = match align { None => off + n, Some(_) => b.len() };
+                if let Some(z) = b[off..fend].iter().position(|x| *x == 0) {
+                    if off + z + 1 < fend {
+                        let mut dirty = b.clone(); for x in dirty[off + z + 1..fend].iter_mut() { *x = b'Z'; }
+                        match decode_buf(compressed, &dirty) {
+                            Dec::Got(p3, _) => { let d = format!("{:?}", p3); if !d.contains(&format!("{:?}", text)) || d.contains("ZZ") || d.contains("\\0Z") { st.fail(format!("[C11] {} field {idx}: decoding does not stop at the first NUL: bytes after it show up in the text ({})", kind.name, d.chars().take(160).collect::<String>()), format!("{id} dirty")); } },
+                            _ => st.fail(format!("[C11] {} field {idx}: a frame with bytes after the terminating NUL does not decode", kind.name), format!("{id} dirty")),
+                        }
+                    }
+                }
+            }
             if let Dec::Got(p2, _) = decode_buf(compressed, b) { let d = format!("{:?}", p2); if text.is_ascii() && !text.is_empty() && !text.contains('^') && encoded.len() <= n.saturating_sub(1) && !d.contains(&format!("{:?}", text)) { st.fail(format!("[C11] {} decoded text differs from the written ASCII text", kind.name), id.clone()); } }
         } else { st.fail(format!("[C11] {} with a {}-byte text does not encode", kind.name, encoded.len()), id.clone()); }
         if text.is_ascii() { Some((format!("settext {} {} {} {}", mode_tag(compressed), hex(&base), idx, hex(text.as_bytes())), enc_string(&e))) } else { None }
